@@ -292,7 +292,7 @@ fn rejections() {
     rejected("with_unsafe", "outside the supported subset");
     rejected("with_index", "outside the supported subset: expression `self.entries[i]`");
     rejected("with_generic", "generic function");
-    rejected("with_mut_ref", "outside the supported subset: type `&mut Ptr`");
+    rejected("with_mut_ref", "`&mut` parameter (only of a struct type)");
     rejected("unsafe_stmts", "`unsafe` block with statements");
     rejected("with_unknown", "no Lean type given for the Rust type `Other`");
     rejected("with_call", "Vec method as a statement");
@@ -743,10 +743,8 @@ fn slot_map_rejections() {
     sm_rejected("borrow_of_param", "`&mut`");
     sm_rejected("two_effects", "second effect in one statement");
     sm_rejected("effect_order", "reads `self` elsewhere too (evaluation order)");
-    sm_rejected("effect_in_cond", "effect in a condition");
     sm_rejected("leaking_name", "the branch binds `y`");
     sm_rejected("while_let", "outside the supported subset");
-    sm_rejected("for_loop", "outside the supported subset");
     sm_rejected("closure_value", "outside the supported subset");
     sm_rejected("generic_non_closure", "generic function");
     // the messages carry file, line and function
@@ -771,6 +769,20 @@ fn effects_inside_an_expression_are_hoisted_in_order() {
     let self := { self with slots := vecSet self.slots at1 s }
     let old := old1
     (self, some old)"
+    );
+}
+
+#[test]
+fn effect_in_a_condition_goes_in_front_of_the_if() {
+    assert_eq!(
+        sm_ok("effect_in_cond"),
+        "def effect_in_cond (self : SM α) : SM α × (Option Nat) :=
+  let old1 := self.len
+  let self := { self with len := 1 }
+  if old1 = 0 then
+    (self, none)
+  else
+    (self, some 1)"
     );
 }
 
@@ -976,4 +988,190 @@ fn sparse_map_rejections() {
     sp_rejected("shrink", "Vec method as a statement");
     sp_rejected("trait_fn_not_given", "call of `K::other`, which is neither translated earlier in this run nor given by --prim");
     sp_rejected("replace_local", "destination of `mem::replace`");
+}
+
+// ------------------------------------------------------------------------------------------------ entity-shaped code
+
+const EN: &str = r#"
+pub struct Entities { locs: SlotMap<EntityLocation> }
+pub struct EntityId(Key);
+pub(crate) struct Reserved { iter: NextKeyIter<EntityLocation>, count: u32 }
+impl Entities {
+    fn add_with(&mut self, f: impl FnOnce(EntityId) -> EntityLocation) -> EntityId {
+        if let Some(k) = self.locs.insert_with(|k| f(EntityId(k))) {
+            EntityId(k)
+        } else {
+            panic!("too many entities")
+        }
+    }
+    fn len(&self) -> u32 { self.locs.len() }
+}
+impl Reserved {
+    pub(crate) fn reserve(&mut self, entities: &Entities) -> EntityId {
+        if let Some(k) = self.iter.next(&entities.locs) {
+            self.count += 1;
+            EntityId(k)
+        } else {
+            panic!("too many entities")
+        }
+    }
+    pub(crate) fn spawn_all(&mut self, entities: &mut Entities, mut f: impl FnMut(EntityId) -> EntityLocation) {
+        for _ in 0..self.count {
+            entities.add_with(&mut f);
+        }
+        self.iter = entities.locs.next_key_iter();
+        self.count = 0;
+    }
+    pub(crate) fn refresh(&mut self, entities: &Entities) {
+        debug_assert_eq!(self.count, 0);
+        self.iter = entities.locs.next_key_iter();
+    }
+    fn pure_loop(&mut self, n: u32) {
+        for i in 0..n { self.count += i; }
+    }
+    fn loop_with_local(&mut self, n: u32) -> u32 {
+        let total = 0;
+        for i in 0..n { if i < 3 { self.count = i; } }
+        total
+    }
+    fn loop_from_one(&mut self, n: u32) { for i in 1..n { self.count += i; } }
+    fn loop_inclusive(&mut self, n: u32) { for i in 0..=n { self.count += i; } }
+    fn loop_over_vec(&mut self, v: Vec<u32>) { for x in v { self.count += x; } }
+    fn loop_with_return(&mut self, n: u32) -> u32 { for i in 0..n { if i == 2 { return 1; } self.count = i; } 0 }
+    fn loop_with_break(&mut self, n: u32) { for i in 0..n { if i == 2 { break; } self.count = i; } }
+    fn loop_with_question(&mut self, n: u32, o: Option<u32>) -> Option<u32> { for _ in 0..n { self.count = o?; } None }
+    fn loop_no_effect(&self, n: u32) -> u32 { for _ in 0..n { let x = 1; } 0 }
+    fn mut_on_shared(&mut self, entities: &Entities, f: impl FnOnce(EntityId) -> EntityLocation) -> EntityId { entities.add_with(f) }
+    fn mut_scalar_param(&mut self, x: &mut u32) { self.count = 1; }
+    fn closure_wrong_arity(&mut self, entities: &mut Entities) -> Option<Key> { entities.locs.insert_with(|a, b| a) }
+    fn panicking_in_nested(&mut self, entities: &mut Entities, f: impl FnOnce(EntityId) -> EntityLocation, c: bool) -> u32 {
+        if c { entities.add_with(f); self.count = 0; }
+        1
+    }
+}
+"#;
+
+fn en_opts(fns: &[&str]) -> Options {
+    let mut all: Vec<String> = vec!["Entities::add_with".into()];
+    all.extend(fns.iter().map(|s| s.to_string()));
+    let p = |a: &str, b: &str| (a.to_string(), b.to_string());
+    Options {
+        impl_type: "Reserved".into(),
+        fns: all,
+        type_map: vec![p("SlotMap", "SlotMap Loc"), p("EntityLocation", "Loc"), p("EntityId", "Key"), p("Key", "Key"), p("NextKeyIter", "NextKeyIter")],
+        structs: vec!["Entities".into(), "Reserved".into()],
+        prims: vec![
+            p("::EntityId(Key) -> EntityId", "_"),
+            p("NextKeyIter::next(&mut self, &SlotMap<EntityLocation>) -> Outcome<Option<Key>>", "NextKeyIter.next"),
+            p("SlotMap::next_key_iter(&self) -> NextKeyIter<EntityLocation>", "SlotMap.next_key_iter"),
+            p("SlotMap::insert_with(&mut self, impl FnOnce(Key) -> EntityLocation) -> Option<Key>", "SlotMap.insert_with"),
+        ],
+        source_label: "en.rs".into(),
+        ..Default::default()
+    }
+}
+
+fn en_ok(f: &str) -> String {
+    let out = translate(EN, &en_opts(&[f])).unwrap_or_else(|e| panic!("{f}: {e}"));
+    body_of(&out, &f.replace("::", "."))
+}
+
+fn en_rejected(f: &str, needle: &str) {
+    match translate(EN, &en_opts(&[f])) {
+        Ok(o) => panic!("{f} was translated:\n{o}"),
+        Err(e) => assert!(e.0.contains(needle), "{f}: message `{}` does not mention `{needle}`", e.0),
+    }
+}
+
+#[test]
+fn call_that_changes_its_receiver_closure_literal_and_constructor() {
+    assert_eq!(
+        en_ok("Entities::add_with"),
+        "def Entities.add_with (self : Entities) (f : Key → Loc) : Outcome (Entities × Key) :=
+  let (r1, q1) := SlotMap.insert_with self.locs (fun k => f k)
+  let self := { self with locs := r1 }
+  match q1 with
+  | some k =>
+    .ok (self, k)
+  | none =>
+    .panic \"too many entities\""
+    );
+}
+
+#[test]
+fn call_that_can_panic_is_an_outcome_bind() {
+    assert_eq!(
+        en_ok("reserve"),
+        "def reserve (self : Reserved) (entities : Entities) : Outcome (Reserved × Key) :=
+  match NextKeyIter.next self.iter entities.locs with
+  | .panic msg => .panic msg
+  | .ok (r1, q1) =>
+    let self := { self with iter := r1 }
+    (match q1 with
+    | some k =>
+      let self := { self with count := self.count + 1 }
+      .ok (self, k)
+    | none =>
+      .panic \"too many entities\")"
+    );
+}
+
+#[test]
+fn for_loop_over_a_range_and_mutable_parameter() {
+    assert_eq!(
+        en_ok("spawn_all"),
+        "def spawn_all (self : Reserved) (entities : Entities) (f : Key → Loc) : Outcome (Reserved × Entities) :=
+  match forRangeO self.count (self, entities) (fun _ (self, entities) =>
+      match Entities.add_with entities f with
+      | .panic msg => .panic msg
+      | .ok (r1, q1) =>
+        let entities := r1
+        .ok (self, entities)) with
+  | .panic msg => .panic msg
+  | .ok (self, entities) =>
+    let self := { self with iter := SlotMap.next_key_iter entities.locs }
+    let self := { self with count := 0 }
+    .ok (self, entities)"
+    );
+    assert_eq!(
+        en_ok("pure_loop"),
+        "def pure_loop (self : Reserved) (n : Nat) : Reserved :=
+  forRange n self (fun i self =>
+      { self with count := self.count + i })"
+    );
+    assert_eq!(
+        en_ok("loop_with_local"),
+        "def loop_with_local (self : Reserved) (n : Nat) : Reserved × Nat :=
+  let total := 0
+  let self :=
+    forRange n self (fun i self =>
+        if i < 3 then
+          { self with count := i }
+        else self)
+  (self, total)"
+    );
+    assert_eq!(en_ok("refresh"), "def refresh (self : Reserved) (entities : Entities) : Reserved :=\n  { self with iter := SlotMap.next_key_iter entities.locs }");
+    let out = translate(EN, &en_opts(&["reserve", "spawn_all", "refresh"])).unwrap();
+    assert!(out.contains("structure Entities where\n  locs : SlotMap Loc\n"), "{out}");
+    assert!(out.contains("structure Reserved where\n  iter : NextKeyIter\n  count : Nat\n"), "{out}");
+    assert!(out.contains("`entities: &mut Entities` (fn spawn_all): state, threaded through like `self`"), "{out}");
+    assert!(out.contains("`NextKeyIter::next(&mut self, &SlotMap<EntityLocation>) -> Outcome<Option<Key>>` is taken as `NextKeyIter.next`"), "{out}");
+    assert!(out.contains("`::EntityId(Key) -> EntityId` is taken as `the identity`"), "{out}");
+    assert!(out.contains("`debug_assert_eq!(self.count, 0)` (debug builds only)"), "{out}");
+}
+
+#[test]
+fn loop_and_state_rejections() {
+    en_rejected("loop_from_one", "loop range (only `0..n`)");
+    en_rejected("loop_inclusive", "loop (only `for x in 0..n`)");
+    en_rejected("loop_over_vec", "loop (only `for x in 0..n`)");
+    en_rejected("loop_with_return", "`return` here");
+    en_rejected("loop_with_break", "outside the supported subset");
+    en_rejected("loop_with_question", "early exit to `None` inside a loop body");
+    en_rejected("loop_no_effect", "loop that can have no effect here");
+    en_rejected("mut_on_shared", "which changes its receiver, on something that is not `&mut` state");
+    en_rejected("mut_scalar_param", "`&mut` parameter (only of a struct type)");
+    en_rejected("closure_wrong_arity", "closure (only `|x, …| e` where a closure type is expected)");
+    en_rejected("panicking_in_nested", "inside a nested statement block");
+    en_rejected("Entities::len", "call of `SlotMap::len`, which is neither translated earlier in this run nor given by --prim");
 }
